@@ -177,8 +177,9 @@ static std::string gen_tunnel(uint64_t seed, uint64_t idx, bool thorough) {
     double read0 = (faults && r.chance(0.3)) ? 0.02 + 0.02 * r.below(10) : 0;
     // coarse clock sources are legal: CLOCK_REALTIME may tick in us or ms steps (several frames then share one timestamp)
     uint64_t clkgran = r.chance(0.25) ? (uint64_t[]){1000, 1000000, 4000000, 10000000}[r.below(4)] : 1;
-    o.line(strf("cfg scen=tunnel udp=%d fd=%d tscf=%d count=%d o0=%d ethpad=%d read0=%.2f clkgran=%llu sched=%s lat=%llu:%llu cost=%llu:%llu qcap=%zu tend=%llu rseed=0x%llx skew0=%lld skew1=%lld",
-                udp, fd, tscf, count, (int)r.chance(0.3), (int)(!udp && r.chance(0.4)), read0, (unsigned long long)clkgran, sched_str(r).c_str(), (unsigned long long)lat_lo, (unsigned long long)lat_hi,
+    int stackfill = r.chance(0.6) ? 0xA5 : (int[]){0x00, 0x00, 0xFF, 0x01}[r.below(4)];
+    o.line(strf("cfg scen=tunnel argorder=%d stackfill=%d udp=%d fd=%d tscf=%d count=%d o0=%d ethpad=%d read0=%.2f clkgran=%llu sched=%s lat=%llu:%llu cost=%llu:%llu qcap=%zu tend=%llu rseed=0x%llx skew0=%lld skew1=%lld",
+                (int)r.coin(), stackfill, udp, fd, tscf, count, (int)r.chance(0.3), (int)(!udp && r.chance(0.4)), read0, (unsigned long long)clkgran, sched_str(r).c_str(), (unsigned long long)lat_lo, (unsigned long long)lat_hi,
                 (unsigned long long)r.range(50, 500), (unsigned long long)r.range(500, 20000), qcap, (unsigned long long)tend,
                 (unsigned long long)r.next(), (long long)big_skew(r), (long long)big_skew(r)));
     for (auto &f : frames) o.line(f);
@@ -569,8 +570,10 @@ static std::string gen_c18(uint64_t seed, uint64_t idx, bool thorough) {
     // piles up behind it, all of it due at once when the head finally fires
     bool backlog = (scen == "aaf" || scen == "cvf") && !fault_free && r.chance(0.12);
     if (backlog) lstack = 128;
-    o.line(strf("cfg scen=%s udp=%d fd=%d tscf=%d count=%d mtt=%d cantxq=%d lstack=%d o0=%d ethpad=%d sched=%s lat=%llu:%llu cost=%llu:%llu qcap=%zu tend=%llu drain=%llu quiet=%llu rseed=0x%llx skew0=%lld skew1=%lld skew2=%lld",
-                scen.c_str(), udp, fd, tscf, count, mtt, cantxq, lstack, (int)r.chance(0.35), (int)(!udp && r.chance(0.3)), sched_str(r).c_str(), (unsigned long long)r.range(1000, 50000),
+    // what a never-written local variable reads: mostly 0xA5 (a wild value), sometimes zero or small values (what a real, used stack tends to hold)
+    int stackfill = r.chance(0.6) ? 0xA5 : (int[]){0x00, 0x00, 0xFF, 0x01}[r.below(4)];
+    o.line(strf("cfg scen=%s argorder=%d stackfill=%d udp=%d fd=%d tscf=%d count=%d mtt=%d cantxq=%d lstack=%d o0=%d ethpad=%d sched=%s lat=%llu:%llu cost=%llu:%llu qcap=%zu tend=%llu drain=%llu quiet=%llu rseed=0x%llx skew0=%lld skew1=%lld skew2=%lld",
+                scen.c_str(), (int)r.coin(), stackfill, udp, fd, tscf, count, mtt, cantxq, lstack, (int)r.chance(0.35), (int)(!udp && r.chance(0.3)), sched_str(r).c_str(), (unsigned long long)r.range(1000, 50000),
                 (unsigned long long)r.range(50000, 1000000), (unsigned long long)r.range(50, 500), (unsigned long long)r.range(500, 20000), qcap,
                 (unsigned long long)tend, (unsigned long long)drain, (unsigned long long)t2, (unsigned long long)rseed, (long long)r.range(0, 20000000) - 10000000,
                 (long long)r.range(0, 20000000) - 10000000, (long long)r.range(0, 20000000) - 10000000));
